@@ -35,6 +35,8 @@ def fmtViol : Viol → String
   | .releasedWhileAppHolds o => s!"message object {o} released/recycled while the application holds it"
   | .handedOutReleased o => s!"application was handed message object {o} which sits in the pool"
   | .writtenAfterRelease o => s!"message object {o} was written after its release (poison damaged)"
+  | .handedOutTwice o => s!"message object {o} handed out by the pool twice without a release in between"
+  | .usedAfterRelease o => s!"message object {o} read or written by the library after its release"
 
 def judge (items : List Item) : String :=
   match items.findSome? (fun i => match i with
@@ -51,7 +53,7 @@ def judge (items : List Item) : String :=
     | none => s!"ok {evs.length}"
 
 def evObj : Ev → Nat
-  | .acq o | .rel o | .hold o | .unhold o | .poisonBad o => o
+  | .acq o | .rel o | .hold o | .unhold o | .poisonBad o | .use o => o
 
 /-- projection used for the path-program correspondence: rel / hold / unhold of the exchange's objects, first lifetime only -/
 def project (items : List Item) : List Ev := Id.run do
@@ -84,6 +86,7 @@ def parseOps (s : String) (fresh : List Nat) : List HandlerOp := Id.run do
 
 def fmtEv : Ev → String
   | .acq o => s!"acq {o}" | .rel o => s!"rel {o}" | .hold o => s!"hold {o}" | .unhold o => s!"unhold {o}" | .poisonBad o => s!"poisonbad {o}"
+  | .use o => s!"use {o}"
 
 /-- expected projection for a `path` scenario: the library's path program, then (if the request was hijacked) the
     application ends its hold and releases the request itself -/
